@@ -859,3 +859,115 @@ def r_forward_self(cx):
         cx.ob("R-FORWARD-SELF", "next/extend", False, "anchor-missing: RawParameters::next does not merge maps with extend",
               cx.where(f.d["span"]))
     cx.count("R-FORWARD-SELF", "merges", n)
+
+
+@rule("R-NEST-UNIT", ["C04"])
+def r_nest_unit(cx):
+    """The recursion guard bounds how deeply macros may nest. C04 counts nesting in macro expansions (every depth from 0
+    to 50 must instantiate), so the guard's counter has to count macro expansions: `RawParameters::next` advances it
+    only on the branch that handles a resource (macro) name. A counter that also advances for every pipeline frame and
+    every elementary step makes the admissible depth depend on the shape of the macro bodies (about 5 per level for a
+    macro whose body is a pipeline), and well-formed definitions nested 20 deep are refused as recursive."""
+    name = "op::raw_parameters::RawParameters::next"
+    f = cx.f.fn(name)
+    adt = cx.f.lib["adts"].get("op::raw_parameters::RawParameters")
+    fields = [x["name"] for x in adt["variants"][0]["fields"]] if adt else []
+    incs = []
+    for bb, i, s in f.all_stmts():
+        if s["k"] == "assign" and s["rv"]["k"] == "bin" and str(s["rv"].get("op", "")).startswith("Add"):
+            v = f.rvalue(s["rv"], (bb, i))
+            m = []
+            mir.walk(v, lambda y: (m.append(1) if y[0] == "proj" and isinstance(y[2], tuple) and y[2][0] == "f" and
+                                   y[2][1] < len(fields) and fields[y[2][1]] == "recursion_level" else None) or True)
+            lp = []
+            mir.walk(v, lambda y: (lp.append(1) if y[0] in ("phi",) else None) or True)
+            if m or lp:
+                incs.append((bb, v, s.get("span")))
+    res = [b for b, t in f.calls() if (t.get("callee") or "").endswith("Tokenize::is_resource_name")]
+    n = 0
+    for bb, v, sp in incs:
+        n += 1
+        # is this increment control dependent on the resource-name test?
+        import slicing
+        cd = slicing.control_deps(f)
+        seen, work = set(), [bb]
+        under = False
+        while work:
+            x = work.pop()
+            for a in cd.get(x, ()):
+                if a in seen:
+                    continue
+                seen.add(a)
+                work.append(a)
+                t = f.term(a)
+                if t["k"] == "switch":
+                    c = f.operand(t["discr"], f.end_point(a))
+                    hit = []
+                    mir.walk(c, lambda y: (hit.append(1) if y[0] == "call" and isinstance(y[1], str) and
+                                           y[1].endswith("is_resource_name") else None) or True)
+                    if hit:
+                        under = True
+        cx.ob("R-NEST-UNIT", "next/%s" % ("macro-increment%d" % (n - 1) if under else "unconditional-increment"), under,
+              "the nesting counter advances where a macro is expanded" if under else
+              "RawParameters::next advances the nesting counter for every frame (pipeline, elementary step), not only for "
+              "macro expansions: the depth the guard admits depends on the shape of the bodies", cx.where(sp))
+    cx.count("R-NEST-UNIT", "increments", n)
+
+
+@rule("R-CHASE-MISSING", ["C04"])
+def r_chase_missing(cx):
+    """`key=$name` takes the caller's value for `name` and is an error when that is absent and no default was given.
+    chase reports "not given" (`Ok(None)`) only when no look-up was in progress: on every path to that result the
+    loop-carried flag that a `$name` has been followed is known to be false. A not-found result that can be reached
+    with the flag set (because the error is made to depend on something else as well, e.g. on the name differing from
+    the key) lets `x=$x` without an `x` pass silently with the operator's default."""
+    import guards
+    f = cx.f.fn("op::parsed_parameters::chase")
+    n = 0
+    for bb, i, s in f.all_stmts():
+        if not (s["k"] == "assign" and s["rv"]["k"] == "agg" and s["rv"].get("vname") == "Ok" and s["place"]["l"] == 0):
+            continue
+        v = f.rvalue(s["rv"], (bb, i))
+        inner = mir.strip_refs(v[2][0]) if v[0] == "agg" and v[2] else None
+        if not (inner is not None and inner[0] == "agg" and "None" in str(inner[1])):
+            continue
+        n += 1
+        facts = guards.branch_facts(f, bb)
+        flags = [at for at, tv in facts if not tv and mir.strip_refs(at)[0] in ("loopphi", "phi") and
+                 "bool" in str(f.local_ty(mir.strip_refs(at)[1][1]))]
+        ok = bool(flags)
+        cx.ob("R-CHASE-MISSING", "chase/absent%d" % (n - 1), ok,
+              "chase answers `not given` only when no look-up is in progress" if ok else
+              "chase can answer `not given` while a `$name` look-up is in progress: a missing caller argument (`x=$x` without "
+              "x) is not an error any more, the operator silently uses its default", cx.where(s.get("span")))
+    cx.count("R-CHASE-MISSING", "absent_results", n)
+
+
+@rule("R-PIPELINE-NO-NAME", ["C04", "C03"])
+def r_pipeline_no_name(cx):
+    """A pipeline has no operator name: `operator_name` answers the empty string for a definition that `is_pipeline`,
+    before it looks at the parameters. `is_resource_name` is built on it, and a pipeline whose first step is a macro
+    (`m:inner | helmert x=1`) would otherwise count as a macro invocation - RawParameters then copies the sibling steps'
+    arguments into the caller's values."""
+    name = "<T as token::Tokenize>::operator_name"
+    if not cx.f.has_fn(name):
+        cx.ob("R-PIPELINE-NO-NAME", "anchor", False, "anchor-missing: %s" % name)
+        return
+    f = cx.f.fn(name)
+    tests = [bb for bb, t in f.calls() if (t.get("callee") or f.callee(t) or "").endswith("is_pipeline")]
+    splits = [bb for bb, t in f.calls() if (t.get("callee") or f.callee(t) or "").endswith("split_into_parameters")]
+    ok = bool(tests) and bool(splits) and all(any(f.dominates(tb, sb) for tb in tests) for sb in splits)
+    if ok:
+        # the pipeline side does not reach the parameter look-up
+        ok = False
+        for tb in tests:
+            sw = f.term(tb).get("target")
+            if sw is not None and f.term(sw)["k"] == "switch":
+                yes = f.term(sw)["otherwise"]
+                if not any(sb in f.reach_from([yes]) for sb in splits):
+                    ok = True
+    cx.ob("R-PIPELINE-NO-NAME", "operator_name", ok,
+          "operator_name answers the empty string for pipelines before looking at the parameters" if ok else
+          "operator_name no longer short-cuts pipelines: a pipeline that starts with a macro step is taken for a macro "
+          "invocation, and the arguments of its other steps leak into the values the macro body sees", cx.where(f.d["span"]))
+    cx.count("R-PIPELINE-NO-NAME", "guards", len(tests))
